@@ -241,6 +241,8 @@ void NiGeometryData::Create(NiVersion&,
 		SetNormals(false);
 		SetTangents(false);
 	}
+
+	SetVertexColors(false);
 }
 
 void NiGeometryData::notifyVerticesDelete(const std::vector<uint16_t>& vertIndices) {
